@@ -508,7 +508,9 @@ func (t *Trie) delete(n trienode.Node, prefix, key *Path) (trienode.Node, bool, 
 		// containing the other child as the child
 		return &trienode.EdgeNode{Path: bitPrefix, Child: n.Children[other], Flags: trienode.NewNodeFlag()}, true, nil
 	case *trienode.ValueNode:
-		t.nodeTracer.onDelete(key)
+		// key is only the remaining part of the path (empty when the parent is the binary
+		// node of the last level); the leaf to drop from the database lives at prefix+key
+		t.nodeTracer.onDelete(new(Path).Append(prefix, key))
 		return nil, true, nil
 	case *trienode.HashNode:
 		child, err := t.resolveNode(n, *prefix)
